@@ -650,8 +650,26 @@ pub fn run_check(spec: &CheckSpec, cfg: &RunCfg) -> i32 {
                 }
             }
             other => {
-                eprintln!("HARNESS ERROR: shrunk replay {} did not reproduce in a fresh process ({:?})", path.display(), other);
-                return 2;
+                // The shrinker runs in this (long-lived) process: a candidate may have "reproduced" here only because
+                // of what earlier candidates left behind in the library. The plan as found did reproduce in a fresh
+                // process (with its prelude, if any): report that one, unshrunk.
+                let rf0 = mk(&f.plan, &f.violation, rf.prelude.clone(), f.levels.clone(), 0);
+                std::fs::write(&path, serde_json::to_string_pretty(&rf0).unwrap()).expect("write replay");
+                let st0 = std::process::Command::new(std::env::current_exe().unwrap()).arg("replay").arg(&path).arg("--quiet").status();
+                if matches!(st0, Ok(s) if s.code() == Some(1)) {
+                    if let Some(k) = crate::known::matches(&rf0) {
+                        known_lines.push(format!("KNOWN-FINDING: property={} {}", spec.prop, k));
+                    } else {
+                        println!("  (the shrunk plan depended on the shrinking process's own history; reported as found)");
+                        println!("  found: class={} op={}#{} task={} :: {}", f.violation.class, f.violation.op_kind, f.violation.op, f.violation.task, f.violation.detail);
+                        println!("VIOLATION property={} replay={}", spec.prop, path.display());
+                        violations = 1;
+                        exit = 1;
+                    }
+                } else {
+                    eprintln!("HARNESS ERROR: shrunk replay {} did not reproduce in a fresh process ({:?})", path.display(), other);
+                    return 2;
+                }
             }
         }
     }
@@ -912,7 +930,7 @@ pub fn selftest_det_shard(spec_list: &[CheckSpec], seeds: u64, shard: u64, of: u
                 let mut n = 0u64;
                 for (prop, fam) in &fams {
                     // process-level families (real b3sum) are deterministic by construction of their oracles, and slow: skip
-                    if prop == "C12" || fam.name == "c13-e2e" || fam.name == "c08-bigmmap" || fam.name == "c18-streams" || fam.name == "c11-bigwrite" || fam.name == "c07-hugeout" {
+                    if prop == "C12" || fam.name == "c13-e2e" || fam.name == "c08-bigmmap" || fam.name == "c18-streams" || fam.name == "c11-bigwrite" || fam.name == "c07-hugeout" || fam.name == "c11-hugefile" || fam.name == "c06-hugein" {
                         continue;
                     }
                     let mut i = shard;
